@@ -453,6 +453,15 @@ def _gen_c10(r, seed, child=False):
             lines.append(G.expand(r, r.choice(G.LINES_A4), ctx))
     if r.random() < 0.05:
         lines.insert(r.randint(0, len(lines)), GC.boundary_line(r, ctx, boundary=r.choice([8192, 65536, 65536]), words=True))
+    if (o["ip"] or o["undo"] or o["pwd"]) and r.random() < 0.06:
+        # the last line makes an earlier stage fail (today the file then fails at that line, C14's subject): whatever is
+        # written for it must not hold a listed word
+        wi = r.randrange(len(o["words"]))
+        if o["ip"] or o["undo"]:
+            head = r.choice([" ipv6 address fe80:%eth0 description ", " ipv6 route fe80::::%eth0 name "])
+        else:
+            head = "enable secret 5 $1$toolongsalt123$abcdefghijklmnopqrstuv "
+        lines.append({"segs": [["lit", head], ["w", o["words"][wi], {"w": wi}], ["lit", "-core1"]], "eol": "\n"})
     if o["pwd"] and r.random() < 0.4:
         # a reserved word in a secret position stays as it is - also after the run has met a Juniper secret whose clear
         # text is that very word, the word as a listed sensitive word's container, or the word in another case
